@@ -23,3 +23,7 @@ def check(repo, rep, tier):
     rd.rule_front_back(em, rep, 'C07.O1')
     rd.rule_retractall_once(em, rep, 'C07.O2')
     rd.rule_clear_resets(em, rep, 'C07.O3')
+    rd.rule_retractall_filters_by_match(em, rep, 'C07.O2b')
+    sm = rd.StoreModel(em)
+    rd.rule_no_read_yield_write(em, rep, 'C07.L2', sm)
+    rd.rule_remove_by_identity(em, rep, 'C07.L3', sm)
